@@ -28,6 +28,8 @@ type ModelError struct {
 	Msg   string
 	// Payload: the failure is a Go panic with this string as its value; a catch variable holds the string itself
 	Payload string
+	// NilValue: the failure is a Go panic whose value is a nil pointer (in an error): the catch variable holds that
+	NilValue bool
 }
 
 func (e *ModelError) Error() string {
@@ -517,6 +519,9 @@ func (in *Interp) stmt(n *Node) (ret interface{}, has bool) {
 	case "let", "set":
 		in.assign(n, n)
 	case "fail":
+		if n.Class == "nil-error-panic" {
+			panic(&ModelError{File: n.File, Line: n.Line, Class: n.Class, Msg: "generated failing action " + n.Src, NilValue: true})
+		}
 		if n.Class == "string-panic" {
 			panic(&ModelError{File: n.File, Line: n.Line, Class: n.Class, Msg: "generated failing action " + n.Src, Payload: n.Text})
 		}
@@ -666,6 +671,9 @@ func (in *Interp) try(n *Node) (ret interface{}, has bool) {
 		if n.Name != "" {
 			in.push(nil)
 			in.scope.vars[n.Name] = errValue{failure}
+			if failure.NilValue {
+				in.scope.vars[n.Name] = (*User)(nil) // a nil pointer: bound, and not "set"
+			}
 			defer in.pop()
 		}
 		return in.list(n.Catch)
@@ -914,7 +922,7 @@ func (in *Interp) lookupVar(name string) (interface{}, bool) {
 	return nil, false
 }
 
-var builtinNames = map[string]bool{"lower": true, "upper": true, "hasPrefix": true, "hasSuffix": true, "repeat": true, "replace": true, "split": true, "trimSpace": true, "html": true, "url": true, "safeHtml": true, "safeJs": true, "raw": true, "unsafe": true, "writeJson": true, "json": true, "map": true, "slice": true, "array": true, "isset": true, "len": true, "includeIfExists": true, "exec": true, "ints": true, "dump": true, "addGlobalNow": true, "rtWrite": true}
+var builtinNames = map[string]bool{"lower": true, "upper": true, "hasPrefix": true, "hasSuffix": true, "repeat": true, "replace": true, "split": true, "trimSpace": true, "html": true, "url": true, "safeHtml": true, "safeJs": true, "raw": true, "unsafe": true, "writeJson": true, "json": true, "map": true, "slice": true, "array": true, "isset": true, "len": true, "includeIfExists": true, "exec": true, "ints": true, "dump": true, "addGlobalNow": true, "rtWrite": true, "given": true}
 
 // member: a.name — struct field (exported), map entry, or method without arguments.
 func (in *Interp) member(at *Node, v interface{}, name string) (interface{}, bool) {
@@ -1219,6 +1227,10 @@ func (in *Interp) call(at *Node, name string, argExprs []*Expr, piped interface{
 		}
 		return true
 	}
+	// given(x): a Go function that asks Arguments.IsSet(0) - the question isset(x) asks, through the other door
+	if name == "given" && !hasPiped && len(argExprs) == 1 {
+		return in.isSet(at, argExprs[0])
+	}
 	var args []interface{}
 	if hasPiped {
 		args = append(args, piped)
@@ -1281,6 +1293,8 @@ func (in *Interp) call(at *Node, name string, argExprs []*Expr, piped interface{
 		switch rv.Kind() {
 		case reflect.Array, reflect.Chan, reflect.Slice, reflect.Map, reflect.String:
 			return rv.Len()
+		case reflect.Struct:
+			return rv.NumField() // (documented: the number of fields)
 		}
 		in.fail(at, "argument-kind", "len of %T", args[0])
 	case "ints":
